@@ -62,6 +62,9 @@ var c04PanicAllowed = map[string]string{
 	"excellent.toExpression":                   "every visitor method that feeds it returns an Expression node (or nil); the default arm documents that",
 }
 
+// c04NilAllowed: invokes on an XValue the generic argument does not prove non-nil, each confirmed by reading.
+var c04NilAllowed = map[string]string{}
+
 func checkC04(p *core.Program, r *core.Report) {
 	r.Rule("R1", "every explicit panic in the expression-evaluation packages is listed as unreachable-by-construction with its guard, or is a violation")
 	r.Rule("R2", "every call of a partial library function (decimal Div/Mod/QuoRem, Pow/Round/Shift/StringFixed with a computed exponent, Must*/Require* with a computed argument, strings.Repeat) has its dangerous operand constant-derived or guarded by a dominating comparison on the same source value")
@@ -157,6 +160,10 @@ func checkC04(p *core.Program, r *core.Report) {
 
 	// ---------- R4 unchecked type assertions
 	c04R4(p, r, fns)
+
+	// ---------- R8 nullable X values
+	r.Rule("R8", "null is a nil XValue: every method invoked on a value of interface type types.XValue in the evaluation packages is on a value shown non-nil (false edge of IsNil / == nil, or produced non-nil by construction) or listed")
+	r.Require("xvalue_method_invokes", xNilRule(p, r, fns, "R8", c04NilAllowed), 2)
 
 	// ---------- R5 constant-offset string slicing
 	r.Rule("R5", "every s[k:], s[:k], s[k] with a constant offset on a string/[]byte in the evaluation packages is guarded by a length / non-empty / prefix test on the same value or listed")
